@@ -73,7 +73,9 @@ class PyFileWriter(AbstractWriter):
 
         try:
             fd, tfile = tempfile.mkstemp(dir=self._path)
-            os.write(fd, encode(data))
+            buf = encode(data)
+            while buf:
+                buf = buf[os.write(fd, buf):]
             os.close(fd)
             os.rename(tfile, pyfile)
 
